@@ -439,9 +439,8 @@ def emit(fns, codes, out):
       "       the outputs are untouched; no clause violated => rc = OK.\n"
       "   E2: after a failed authentication the output equals its pre-image or zeros and does not\n"
       "       contain the plaintext of the corresponding correct call.\n"
-      "   The module is also its own generator (replay direction): Init/Next enumerate, per driven\n"
-      "   function, the baseline and every boundary value of every scalar argument, and print the\n"
-      "   case with the verdict the contract predicts. *)\n")
+      "   Replay direction: spec/gen/Gen_Err.tla enumerates `Cases` (per driven function the baseline\n"
+      "   and every boundary value of every scalar argument) with the verdict the contract predicts. *)\n")
     w("EXTENDS Naturals, Integers, Sequences, FiniteSets, TLC, Json\n\n")
     w("ErrCode == [\n  " + ",\n  ".join("%s |-> %d" % (k, v) for k, v in codes.items()) + " ]\n\n")
     w("AuthErrs == {" + ", ".join(tla_str(e) for e in AUTH_ERRS) + "}\n\n")
@@ -517,15 +516,6 @@ Args(f, p, v) == IF p = "" THEN Contract(f).base ELSE [Contract(f).base EXCEPT !
 Cases == {<<f, "", 0>> : f \in DrivenFns}
          \cup UNION {{<<f, pv[1], pv[2]>> : pv \in Contract(f).sweep} : f \in DrivenFns}
 
-VARIABLES gphase, gcase
-Init == gphase = 0 /\ gcase = <<"", "", 0>>
-Next == \/ gphase = 0 /\ gphase' = 1 /\ gcase' \in Cases
-        \/ /\ gphase = 1 /\ gphase' = 2 /\ gcase' = gcase
-           /\ LET f == gcase[1] a == Args(f, gcase[2], gcase[3]) IN
-              PrintT("@J " \o ToJson([fn |-> f, p |-> gcase[2], v |-> gcase[3], a |-> a,
-                                      viol |-> Violated(f, a), expect |-> Expect(f, a),
-                                      secret |-> Contract(f).secret]))
-
 \* table consistency: the baseline of every driven function satisfies every clause
 BaselineValid == \A f \in DrivenFns : Violated(f, Contract(f).base) = {}
 \* every driven clause (pred or flag) is violated by at least one generated case
@@ -533,7 +523,7 @@ Reached(f) == UNION {Violated(f, Args(f, pv[1], pv[2])) : pv \in Contract(f).swe
 DrivenClauses(f) == {i \in 1..NClauses(f) : Contract(f).clauses[i].kind \in {"pred", "flag"}}
 EveryClauseReachable == \A f \in DrivenFns : DrivenClauses(f) \subseteq Reached(f)
 \* a sweep changes one argument only, so a case violates clauses of that argument only
-TableOK == gphase = 0 => (BaselineValid /\ EveryClauseReachable)
+TableOK == BaselineValid /\ EveryClauseReachable
 =============================================================================
 """
 
